@@ -87,8 +87,9 @@ func (ms *memstore) GetMeta(baseUrl HttpBaseUrl, bucket string, filename string)
 	return nil, nil
 }
 
-// cloneMeta returns a copy of meta that does not share the user metadata map with it, so that a caller
-// (or another object made from it) mutating the copy cannot change the stored object.
+// cloneMeta returns a copy of meta that shares nothing mutable with it (user metadata map, ACL entries, owner,
+// retention, customer encryption), so that a caller (or another object made from it) mutating the copy, e.g. by
+// decoding a PATCH body onto it that is then rejected, cannot change the stored object.
 func cloneMeta(meta storage.Object) storage.Object {
 	if meta.Metadata != nil {
 		m := make(map[string]string, len(meta.Metadata))
@@ -96,6 +97,33 @@ func cloneMeta(meta storage.Object) storage.Object {
 			m[k] = v
 		}
 		meta.Metadata = m
+	}
+	if meta.Acl != nil {
+		acl := make([]*storage.ObjectAccessControl, len(meta.Acl))
+		for i, a := range meta.Acl {
+			if a == nil {
+				continue
+			}
+			c := *a
+			if a.ProjectTeam != nil {
+				pt := *a.ProjectTeam
+				c.ProjectTeam = &pt
+			}
+			acl[i] = &c
+		}
+		meta.Acl = acl
+	}
+	if meta.Owner != nil {
+		o := *meta.Owner
+		meta.Owner = &o
+	}
+	if meta.Retention != nil {
+		r := *meta.Retention
+		meta.Retention = &r
+	}
+	if meta.CustomerEncryption != nil {
+		ce := *meta.CustomerEncryption
+		meta.CustomerEncryption = &ce
 	}
 	return meta
 }
